@@ -134,6 +134,30 @@ func (p *zzPD) GetAllStores(ctx context.Context, opts ...opt.GetStoreOption) ([]
 }
 
 // zzLayout builds len(splits)+1 regions split at the given increasing keys.
+// split cuts the region that holds key strictly inside it at key: the left part gets a new id, the
+// right part keeps the id; both carry the next version.
+func (p *zzPD) split(key []byte) bool {
+	for i, r := range p.regions {
+		if zzRegionHas(r, key) && !bytes.Equal(r.StartKey, key) {
+			nid := uint64(50 + len(p.regions))
+			peers := []*metapb.Peer{{Id: nid*10 + 1, StoreId: 1}, {Id: nid*10 + 2, StoreId: 2}, {Id: nid*10 + 3, StoreId: 3}}
+			left := &metapb.Region{Id: nid, StartKey: r.StartKey, EndKey: key,
+				RegionEpoch: &metapb.RegionEpoch{ConfVer: 1, Version: r.RegionEpoch.Version + 1}, Peers: peers}
+			right := &metapb.Region{Id: r.Id, StartKey: key, EndKey: r.EndKey,
+				RegionEpoch: &metapb.RegionEpoch{ConfVer: 1, Version: r.RegionEpoch.Version + 1}, Peers: r.Peers}
+			regions := append([]*metapb.Region{}, p.regions[:i]...)
+			regions = append(regions, left, right)
+			regions = append(regions, p.regions[i+1:]...)
+			leaders := append([]*metapb.Peer{}, p.leaders[:i]...)
+			leaders = append(leaders, peers[0], p.leaders[i])
+			leaders = append(leaders, p.leaders[i+1:]...)
+			p.regions, p.leaders = regions, leaders
+			return true
+		}
+	}
+	return false
+}
+
 func zzLayout(splits [][]byte) *zzPD {
 	p := &zzPD{}
 	p.stores = []*metapb.Store{{Id: 1, Address: "s1"}, {Id: 2, Address: "s2"}, {Id: 3, Address: "s3"}}
@@ -290,6 +314,8 @@ const (
 	zzEvForeignResolve // another client's resolver rolls our primary back just before this request is executed
 	zzEvDelay          // the request is held back while other requests of the transaction proceed (concurrent batches only)
 	zzEvLostResponseCtxDone // the request is executed, its answer is lost and the caller's context ends at that moment
+	zzEvReaderPush          // a reader with a fresh timestamp passes over the region just before this prewrite (the store's max_ts moves)
+	zzEvSplit               // the region splits (once, at cl.splitKey) before the request is executed: EpochNotMatch with the new regions
 	zzNumEvents
 )
 
@@ -324,6 +350,10 @@ type zzCluster struct {
 	// either never delivered or delivered but never answered; afterwards none of its requests
 	// reaches the store. Requests of peer clients are not affected and not counted.
 	onlyCommitTsExpired bool // the script's only fault is CommitTsExpired on a commit request
+	orc            *zzOracleCore // for events that need a fresh timestamp (nil: none)
+	pd             *zzPD
+	splitKey       []byte // the script may split the region holding this key once (nil: not part of the script)
+	splitDone      bool
 	cancelCaller   func() // ends the context the transaction's caller passed to Commit (nil: not part of the script)
 	peerRPCs       int
 	peers          int
@@ -444,6 +474,12 @@ func (c *zzCluster) prewrite(r *kvrpcpb.PrewriteRequest) *kvrpcpb.PrewriteRespon
 			if w.commitTS == 0 {
 				resp.Errors = append(resp.Errors, &kvrpcpb.KeyError{Conflict: &kvrpcpb.WriteConflict{StartTs: start, ConflictTs: start,
 					ConflictCommitTs: start, Key: m.Key, Primary: r.PrimaryLock, Reason: kvrpcpb.WriteConflict_SelfRolledBack}})
+			} else {
+				// a prewrite that arrives after the transaction's own commit record (a re-sent 1PC /
+				// async-commit prewrite whose first copy was executed): TiKV's newer-version check
+				// answers with a write conflict against that record
+				resp.Errors = append(resp.Errors, &kvrpcpb.KeyError{Conflict: &kvrpcpb.WriteConflict{StartTs: start, ConflictTs: start,
+					ConflictCommitTs: w.commitTS, Key: m.Key, Primary: r.PrimaryLock, Reason: kvrpcpb.WriteConflict_Optimistic}})
 			}
 			continue
 		}
@@ -991,6 +1027,12 @@ func (c *zzClient) SendRequest(ctx context.Context, addr string, req *tikvrpc.Re
 		if cl.cancelCaller != nil && !cl.regionErrorsOnly {
 			allowed = append(allowed, zzEvLostResponseCtxDone)
 		}
+		if cl.splitKey != nil && !cl.splitDone && cl.pd != nil {
+			allowed = append(allowed, zzEvSplit)
+		}
+		if cl.orc != nil && req.Type == tikvrpc.CmdPrewrite && !cl.regionErrorsOnly && !cl.onlyCommitTsExpired {
+			allowed = append(allowed, zzEvReaderPush)
+		}
 		// the draw is named after the request it decides, so that a native replay
 		// matches it regardless of the order in which goroutines send
 		ev = allowed[zzChoice(cl.eventName(req), len(allowed))]
@@ -1036,6 +1078,20 @@ func (c *zzClient) SendRequest(ctx context.Context, addr string, req *tikvrpc.Re
 		resp, _ := tikvrpc.GenRegionErrorResp(req, &errorpb.Error{Message: "epoch", EpochNotMatch: &errorpb.EpochNotMatch{}})
 		rpc.answered = true
 		return finish(resp, nil)
+	case zzEvSplit:
+		cl.splitDone = true
+		var cur []*metapb.Region
+		if cl.pd.split(cl.splitKey) {
+			cl.regions = cl.pd.regions
+			for _, r := range cl.pd.regions {
+				if bytes.Equal(r.EndKey, cl.splitKey) || bytes.Equal(r.StartKey, cl.splitKey) {
+					cur = append(cur, r)
+				}
+			}
+		}
+		resp, _ := tikvrpc.GenRegionErrorResp(req, &errorpb.Error{Message: "epoch", EpochNotMatch: &errorpb.EpochNotMatch{CurrentRegions: cur}})
+		rpc.answered = true
+		return finish(resp, nil)
 	case zzEvDelay:
 		// let the other batches of the transaction run first; afterwards another
 		// client may already have met (and resolved) one of their locks
@@ -1052,6 +1108,11 @@ func (c *zzClient) SendRequest(ctx context.Context, addr string, req *tikvrpc.Re
 			cl.runForeign()
 		} else {
 			cl.foreignResolve(cl.primary, cl.startTS)
+		}
+	case zzEvReaderPush:
+		// another transaction begins now and reads in this region: max_ts becomes its start ts
+		if ts, err := cl.orc.GetTimestamp(context.Background(), nil); err == nil && ts > cl.maxReadTS {
+			cl.maxReadTS = ts
 		}
 	case zzEvCommitTsExpired:
 		r := req.Commit()
@@ -1315,6 +1376,7 @@ func zzNewStoreTS(splits [][]byte, faults int, symbolicTS bool) (*zzStore, *zzCl
 	s := &zzStore{ctx: context.Background()}
 	pdc := zzLayout(splits)
 	cl.regions = pdc.regions
+	cl.pd = pdc
 	s.pd = pdc
 	s.cache = locate.NewRegionCache(pdc)
 	s.cli = &zzClient{cl: cl}
